@@ -92,3 +92,60 @@ def roundRobin : Nat → List (List Op) → List Op
     if heads.isEmpty then [] else heads ++ roundRobin fuel (ts.map List.tail)
 
 end Sidetree.Conc
+
+/-! ### critical sections made of several map accesses
+
+  One step of `run` above is a whole critical section. Here a section is a sequence of single map
+  accesses executed one at a time by its goroutine, interleaved with the other goroutines'
+  steps under the lock's rules. The discipline read off the Go sources is built into the step
+  relation: a `put` is only ever executed inside a write section, a read section contains only
+  `get`s. `Props/C20.lean` proves that a write section runs alone and that the map does not
+  change while anybody is inside a read section — which is what makes a section atomic. -/
+
+namespace Sidetree.Conc
+
+inductive Prim where
+  | put (k : String) (v : Nat)
+  | get (k : String)
+deriving Repr, DecidableEq
+
+def Prim.isGet : Prim → Bool
+  | .get _ => true
+  | .put _ _ => false
+
+/-- one goroutine: which kind of section it is inside, and what is left of the section's body -/
+structure TState where
+  inside : Option Mode := none
+  todo : List Prim := []
+
+structure Sys where
+  reg : Reg
+  th : Nat → TState
+
+def Sys.set (s : Sys) (t : Nat) (ts : TState) : Sys := { s with th := fun u => if u = t then ts else s.th u }
+
+def Sys.init : Sys := { reg := [], th := fun _ => {} }
+
+/-- `SStep s t s'`: goroutine `t` takes one step -/
+inductive SStep : Sys → Nat → Sys → Prop
+  | beginW (s : Sys) (t : Nat) (body : List Prim) : (∀ u, (s.th u).inside = none) →
+      SStep s t (s.set t { inside := some .w, todo := body })
+  | beginR (s : Sys) (t : Nat) (body : List Prim) : (s.th t).inside = none → (∀ u, (s.th u).inside ≠ some .w) →
+      body.all Prim.isGet = true → SStep s t (s.set t { inside := some .r, todo := body })
+  | put (s : Sys) (t : Nat) (k : String) (v : Nat) (rest : List Prim) : (s.th t).inside = some .w →
+      (s.th t).todo = .put k v :: rest → SStep s t ({ s with reg := s.reg.put k v }.set t { inside := some .w, todo := rest })
+  | get (s : Sys) (t : Nat) (k : String) (rest : List Prim) (m : Mode) : (s.th t).inside = some m →
+      (s.th t).todo = .get k :: rest → SStep s t (s.set t { inside := some m, todo := rest })
+  | done (s : Sys) (t : Nat) (m : Mode) : (s.th t).inside = some m → (s.th t).todo = [] →
+      SStep s t (s.set t {})
+
+inductive SReachable : Sys → Prop
+  | init : SReachable Sys.init
+  | step {s s' t} : SReachable s → SStep s t s' → SReachable s'
+
+/-- a writer is alone; a reader's remaining body has no `put` -/
+def SInv (s : Sys) : Prop :=
+  (∀ t u, t ≠ u → (s.th t).inside = some .w → (s.th u).inside = none) ∧
+  (∀ t, (s.th t).inside = some .r → (s.th t).todo.all Prim.isGet = true)
+
+end Sidetree.Conc
